@@ -558,8 +558,8 @@ def _judge(w, entry, spans, k, res, step_i, viol, bump, probes):
     # writer can scale with the number it stores
     lowp_out = arr is not None and getattr(arr, "dtype", None) == np.float32
     tolv = step * (1 + 1e-9) + np.abs(np.nan_to_num(z)) * (2.0 ** -22 if lowp_out else 1e-12)
-    if entry.get("f32"):
-        tolv = tolv + np.abs(np.nan_to_num(z)) * 2.0 ** -21      # the input's own single-precision rounding
+    # (a float32 map is a map like any other: its samples are exact numbers, and a writer that works in the
+    # map's own precision instead of widening it first gets no allowance)
 
     # A text file cut inside its trailing white space has every number intact but IS shorter than what was
     # written; a reader that insists on the terminator (the only way to tell a shortened last number from a
